@@ -295,6 +295,11 @@ fn check_chain(c: &Case) -> Verdict {
   v
 }
 
+/// a selection that addresses no row (an all-false mask): however the empty result is represented, it holds no row
+fn no_rows_invented(v: &mut Verdict, text: &str, out: &Outcome, form: &str) {
+  if let Outcome::Ok(RVal::Table { rows: nr, .. }) = out { if *nr > 0 { v.fail(format!("C18|select-{}-empty-selection-has-rows", form), format!("`{}` selects no row but gave {}", text, out.show())); } }
+}
+
 fn check_seljoin(c: &Case) -> Verdict {
   let Case::SelectJoin { a, b, op, sel } = c else { unreachable!() };
   let mut v = Verdict::new();
@@ -318,7 +323,7 @@ fn check_seljoin(c: &Case) -> Verdict {
   let out = sess.run(&stmt);
   if let Outcome::NotCode = out { v.harness(format!("`{}` parsed as prose", stmt)); return v; }
   if let Outcome::Panic(m) = &out { v.fail("C18|panic-escaped", m.clone()); return v; }
-  if rows.is_empty() { v.label("empty-selection"); return v; }
+  if rows.is_empty() { v.label("empty-selection"); no_rows_invented(&mut v, &text, &out, form); return v; }
   let holes = cols.iter().any(|(_, _, c)| c.iter().any(|x| *x == RVal::S(Sc::Empty)));
   v.key = Some(format!("select-on-join|{:?}|{}|{}|{}|{}", op, form, nr.min(4), rows.len(), holes));
   match (&out, sel) {
@@ -374,7 +379,7 @@ fn check(c: &Case) -> Verdict {
           if *fields != want { v.fail("C18|select-row-wrong", format!("`{}` gave {} expected row {}", text, out.show(), i)); }
         }
         (Outcome::Ok(RVal::Table { rows: nr, cols }), Sel::Rows(_) | Sel::Mask(_) | Sel::Range(..) | Sel::RowsVar(_) | Sel::MaskVar(_)) => {
-          if rows.is_empty() { v.label("empty-selection"); return v; }
+          if rows.is_empty() { v.label("empty-selection"); no_rows_invented(&mut v, &text, &out, form); return v; }
           let want: Vec<(String, String, Vec<RVal>)> = t.cols.iter().enumerate().map(|(ci, (nm, k))| (nm.clone(), k.name().to_string(), rows.iter().map(|r| cell(t, *r, ci)).collect())).collect();
           if *nr != rows.len() || *cols != want { v.fail(format!("C18|select-{}-wrong", form), format!("`{}` gave {} expected rows {:?} in order", text, out.show(), rows.iter().map(|r| r + 1).collect::<Vec<_>>())); }
         }
